@@ -242,7 +242,8 @@ DoFor(ev) ==
     /\ IF ev.ok = 1
        THEN /\ fors' = (ev.f :> [d |-> ev.d, rel |-> rel, rng |-> ev.rng, lab |-> ev.lab,
                                 rule |-> ev.rule, alive |-> TRUE, fid |-> ev.fid,
-                                l2v |-> [k \in 1..Len(doms[ev.d].sizes) |-> k]]) @@ fors
+                                l2v |-> [k \in 1..Len(doms[ev.d].sizes) |-> k],
+                                swp |-> ev.swp, heur |-> ev.heur]) @@ fors
             /\ nextFid' = ev.fid + 1
        ELSE Same(<<fors, nextFid>>)
     /\ err' = IF ev.ok = 1 THEN "ok" ELSE ev.err
@@ -450,22 +451,33 @@ DoBulk(ev) ==
 
 DoCache(ev) == Query(IF ev.ok = 0 THEN {V("C07", "cache-maintenance-failed-" \o ev.err)} ELSE {})
 
+\* Reordering a *relation* forest whose policy selects the LEVEL swap method:
+\* policies::isLevelSwap() tests for VAR, so mtmxd_forest::swapAdjacentVariables
+\* takes neither branch - nothing is swapped, the requested order is not
+\* established, and heuristics that wait for progress never return.
+DevLevelSwap(f) ==
+    IF f \in DOMAIN fors /\ fors[f].rel /\ fors[f].swp = "L"
+    THEN "REORDER:relation-forest:level-swap-method" ELSE ""
+
 \* reordering: the specification permutes every edge of the forest; what the
 \* library really holds is compared at the next Obs
 DoReorder(ev) ==
     IF ev.ok = 1
     THEN /\ edges' = ReorderedEdges(ev.f, ev.now)
          /\ fors' = [fors EXCEPT ![ev.f].l2v = ev.now]
-         /\ viol' = viol \cup (IF ev.now # ev.l2v THEN {V("C13", "requested-order-not-established")} ELSE {})
+         /\ viol' = viol \cup (IF ev.now = ev.l2v THEN {}
+                                ELSE IF DevLevelSwap(ev.f) # "" THEN {V("C13", "KF:" \o DevLevelSwap(ev.f))}
+                                ELSE {V("C13", "requested-order-not-established")})
          /\ err' = "ok"
          /\ Same(<<lib, doms, nextFid, files, ids>>)
-    ELSE /\ viol' = viol \cup {V("C13", "reorder-failed-" \o ev.err)}
+    ELSE /\ viol' = viol \cup (IF DevLevelSwap(ev.f) # "" THEN {V("C13", "KF:" \o DevLevelSwap(ev.f))}
+                                ELSE {V("C13", "reorder-failed-" \o ev.err)})
          /\ err' = ev.err
          /\ Same(<<lib, doms, fors, edges, nextFid, files, ids>>)
 
 DoWrite(ev) ==
     IF ev.ok = 1
-    THEN /\ files' = (ev.b :> [kind |-> KindOf(fors[ev.f]), sizes |-> FSizes(ev.f),
+    THEN /\ files' = (ev.b :> [kind |-> KindOf(fors[ev.f]), sizes |-> FSizes(ev.f), rule |-> fors[ev.f].rule,
                                fns |-> [x \in 1..Len(ev.es) |-> edges[ev.es[x]].fn]]) @@ files
          /\ err' = "ok"
          /\ Same(<<lib, doms, fors, edges, nextFid, ids, viol>>)
@@ -501,14 +513,25 @@ DoRead(ev) ==
          /\ err' = ev.err
          /\ Same(<<lib, doms, fors, edges, nextFid, files, ids>>)
 
+\* The exchange format records the forest's kind but not its reduction rule,
+\* and node records keep the skipped levels of the writing forest.  A forest
+\* created from the file gets the default rule of its kind (fully-reduced sets,
+\* identity-reduced relations); when the writing forest used another rule the
+\* skipped levels change meaning.  Recognised only when the two rules differ.
+DevReadNew(ev) ==
+    IF ev.b \in DOMAIN files /\ files[ev.b].rule # ev.rule
+    THEN "MDD_READER:forest-created-from-file:reduction-rule-not-recorded" ELSE ""
+
 DoReadNew(ev) ==
     IF ev.ok = 1
     THEN LET k == files[ev.b].kind IN
          /\ fors' = (ev.fnew :> [d |-> ev.d, rel |-> ev.rel = 1, rng |-> ev.rng, lab |-> ev.lab,
                                  rule |-> ev.rule, alive |-> TRUE, fid |-> ev.fid,
-                                 l2v |-> [j \in 1..Len(doms[ev.d].sizes) |-> j]]) @@ fors
+                                 l2v |-> [j \in 1..Len(doms[ev.d].sizes) |-> j],
+                                 swp |-> "V", heur |-> "SD"]) @@ fors
          /\ nextFid' = ev.fid + 1
-         /\ viol' = viol \cup ReadViol(ev, ev.fnew)
+         /\ viol' = viol \cup (IF ReadViol(ev, ev.fnew) # {} /\ DevReadNew(ev) # ""
+                                THEN {V("C14", "KF:" \o DevReadNew(ev))} ELSE ReadViol(ev, ev.fnew))
                          \cup (IF [rel |-> ev.rel = 1, rng |-> ev.rng, lab |-> ev.lab] # k
                                THEN {V("C14", "forest-created-from-file-has-wrong-kind")} ELSE {})
                          \cup (IF ev.fid < nextFid THEN {V("C17", "forest-id-reused")} ELSE {})
@@ -524,6 +547,8 @@ DoCrash(ev) ==
     /\ viol' = viol \cup
           (IF pend # << >> /\ SatRelKey(pend.op, pend.b) # ""
            THEN {V(IF pend.op = "SATURATION_FORWARD" THEN "C20" ELSE "C08", "KF:" \o SatRelKey(pend.op, pend.b))}
+           ELSE IF pend # << >> /\ pend.op = "REORDER" /\ DevLevelSwap(pend.r) # ""
+           THEN {V("C13", "KF:" \o DevLevelSwap(pend.r))}
            ELSE {V("CRASH", ev.cmd)})
     /\ Same(<<vars, ids>>)
 
@@ -571,7 +596,7 @@ Step ==
          [] OTHER            -> /\ viol' = viol \cup {V("MODEL", "unknown-event-" \o ev.e)}
                                 /\ Same(<<vars, ids>>)
     /\ pend' = IF TraceLog[l].e = "Call" THEN TraceLog[l]
-               ELSE IF TraceLog[l].e \in {"Bin", "Un", "Sat", "Reset"} THEN << >> ELSE pend
+               ELSE IF TraceLog[l].e \in {"Bin", "Un", "Sat", "Reorder", "Reset"} THEN << >> ELSE pend
     /\ l' = l + 1
     /\ done' = FALSE
 
